@@ -11,7 +11,7 @@ import itertools
 from dataclasses import dataclass, make_dataclass
 from typing import Annotated, Callable, Dict, Generic, List, Literal, NewType, Optional, Sequence, TypeVar, Union
 
-from adaptix import DebugTrail, Retort, loader, name_mapping
+from adaptix import DebugTrail, Retort, dumper, loader, name_mapping
 from adaptix.conversion import ConversionRetort, coercer
 
 from mc import codec, env, parallel
@@ -30,7 +30,7 @@ META = {
         "probe outcomes are compared as type-exact renderings of values / exception class trees",
         "histories longer than the bound and types outside the confusable pool are not explored",
     ],
-    "bound": {"quick": "all histories of length <= 2 over the full operation alphabet",
+    "bound": {"quick": "all histories of length 1; all histories of length 2 whose first operation touches a shared key class, a clone or the conversion retort",
               "thorough": "length <= 2 over the full alphabet and length <= 3 over the 16 operations that touch a shared key class"},
 }
 
@@ -51,6 +51,18 @@ class Rec:
 @dataclass
 class BadField:
     f: Callable[[int], int]
+
+
+@dataclass
+class MA:
+    x: int
+    b: Optional["MB"] = None
+
+
+@dataclass
+class MB:
+    y: int
+    a: Optional[MA] = None
 
 
 M_int = make_dataclass("M", [("a", int)])
@@ -79,6 +91,8 @@ POOL = [
     ("Annotated[int,True]", Annotated[int, True]),
     ("Annotated[bool,1]", Annotated[bool, 1]),
     ("Rec", Rec),
+    ("MA<->MB", MA),
+    ("MB<->MA", MB),
     ("BadField", BadField),
     ("G[int]", G[int]),
     ("G[bool]", G[bool]),
@@ -88,12 +102,14 @@ POOL = [
 POOL_IDX = {name: i for i, (name, _) in enumerate(POOL)}
 
 LOAD_DATA = [0, False, 1, True, "a", [1], [True], ["a"], {"k": 0}, {"k": False}, {"a": 1}, {"a": "x"}, {"g": 1}, {"g": True},
-             None, {"v": 1, "children": [{"v": 2, "children": []}]}]
+             None, {"v": 1, "children": [{"v": 2, "children": []}]},
+             {"x": 1, "b": {"y": 2, "a": {"x": 3, "b": {"y": 4, "a": None}}}}, {"y": 1, "a": {"x": 2, "b": {"y": 3, "a": {"x": 4}}}}]
 DUMP_VALUES = [0, False, 1, True, "a", [1], [True], {"k": 0}, {"k": True}, M_int(1), M_str("x"), G(1), G(True),
-               Rec(1, [Rec(2, [])]), None]
+               Rec(1, [Rec(2, [])]), None, MA(1, MB(2, MA(3, MB(4)))), MB(1, MA(2, MB(3, MA(4))))]
 
 EXT_PROVIDERS = {
     "loader(int,+1)": lambda: loader(int, lambda d: d + 1 if type(d) is int else d),
+    "dumper(int,*10)": lambda: dumper(int, lambda d: d * 10 if type(d) is int else d),
     "name_mapping(M,a->A)": lambda: name_mapping(M_int, map={"a": "A"}),
 }
 
@@ -104,13 +120,19 @@ D2 = make_dataclass("D", [("a", int)])
 D3 = make_dataclass("D", [("a", str), ("b", str)])      # needs a coercer int -> str for field a
 CONV_PAIRS = [("S->D(a,b)", S1, D1), ("S->D(a)", S1, D2), ("S->D(a:str,b)", S1, D3)]
 CONV_EXT = {"coercer(int,str)": lambda: coercer(int, str, str)}
+# per-call recipes: two get_converter / convert calls for the same pair that differ only in recipe=
+CALL_RECIPES = {
+    "none": lambda: [],
+    "str()": lambda: [coercer(int, str, str)],
+    "tagged": lambda: [coercer(int, str, lambda x: f"<{x}>")],
+}
 
 
 def operations():
     ops = []
     for name, _ in POOL:
         ops.append(("get_loader", name))
-    for name in ("Literal[0,1]", "Literal[False,True]", "List[int]", "Union[int,str]", "M(a:int)", "M(a:str)", "Rec",
+    for name in ("Literal[0,1]", "Literal[False,True]", "List[int]", "Union[int,str]", "M(a:int)", "M(a:str)", "Rec", "MA<->MB",
                  "BadField", "G[int]", "G[bool]", "Annotated[int,1]", "Dict[str,Literal[False,True]]"):
         ops.append(("get_dumper", name))
     ops += [("load", "Literal[False,True]", 3), ("load", "Literal[0,1]", 3), ("load", "M(a:int)", 11), ("load", "Rec", 4),
@@ -119,6 +141,7 @@ def operations():
     ops += [("extend", k) for k in EXT_PROVIDERS]
     ops += [("filler",)]
     ops += [("conv_get", p[0]) for p in CONV_PAIRS] + [("conv_extend", k) for k in CONV_EXT]
+    ops += [("conv_get_recipe", "S->D(a:str,b)", k) for k in CALL_RECIPES] + [("conv_convert_recipe", "S->D(a:str,b)", "tagged")]
     return ops
 
 
@@ -126,7 +149,7 @@ SHARED_KEY_OPS = [
     ("get_loader", "Literal[0,1]"), ("get_loader", "Literal[False,True]"), ("get_loader", "Optional[Literal[False]]"),
     ("get_loader", "Dict[str,Literal[0,1]]"), ("get_loader", "List[int]"), ("get_loader", "List[bool]"),
     ("get_loader", "M(a:int)"), ("get_loader", "M(a:str)"), ("get_loader", "G[bool]"), ("get_loader", "G[int]"),
-    ("get_loader", "Annotated[int,True]"), ("get_loader", "BadField"), ("get_dumper", "M(a:str)"),
+    ("get_loader", "Annotated[int,True]"), ("get_loader", "BadField"), ("get_dumper", "M(a:str)"), ("get_loader", "MA<->MB"),
     ("replace", "strict_coercion", False), ("extend", "loader(int,+1)"), ("filler",),
 ]
 
@@ -202,6 +225,15 @@ class World:
                 self.conv[-1].get_converter(pair[1], pair[2])
             except Exception:  # noqa: BLE001, S110
                 pass
+        elif kind in ("conv_get_recipe", "conv_convert_recipe"):
+            pair = next(p for p in CONV_PAIRS if p[0] == op[1])
+            try:
+                if kind == "conv_get_recipe":
+                    self.conv[-1].get_converter(pair[1], pair[2], recipe=CALL_RECIPES[op[2]]())
+                else:
+                    self.conv[-1].convert(S1(1, "x"), pair[2], recipe=CALL_RECIPES[op[2]]())
+            except Exception:  # noqa: BLE001, S110
+                pass
         elif kind == "conv_extend":
             for i in range(len(self.conv)):
                 self.conv.append(self.conv[i].extend(recipe=[CONV_EXT[op[1]]()]))
@@ -255,6 +287,9 @@ def probe_conv(c):
     src = S1(1, "x")
     for name, s, d in CONV_PAIRS:
         out[("conv", name)] = outcome(lambda s=s, d=d: c.get_converter(s, d)(src))
+        for rname, mk in CALL_RECIPES.items():
+            out[("conv_recipe", name, rname)] = outcome(lambda s=s, d=d, mk=mk: c.get_converter(s, d, recipe=mk())(src))
+            out[("convert_recipe", name, rname)] = outcome(lambda d=d, mk=mk: c.convert(src, d, recipe=mk()))
     return out
 
 
@@ -286,6 +321,11 @@ def pristine(path, conv=False):
         for name, s, d in CONV_PAIRS:
             c = build_path(path, conv=True)
             out[("conv", name)] = outcome(lambda: c.get_converter(s, d)(src))
+            for rname, mk in CALL_RECIPES.items():
+                c = build_path(path, conv=True)
+                out[("conv_recipe", name, rname)] = outcome(lambda: c.get_converter(s, d, recipe=mk())(src))
+                c = build_path(path, conv=True)
+                out[("convert_recipe", name, rname)] = outcome(lambda: c.convert(src, d, recipe=mk()))
     else:
         for name, hint in POOL:
             for j, d in enumerate(LOAD_DATA):
@@ -365,8 +405,13 @@ def shard(args):
 def run(tier):
     report = Report()
     ops = operations()
-    shards = [(op, ops, 2) for op in ops]
-    if tier == "thorough":
+    if tier == "quick":
+        # every history of length 1, and every history of length 2 whose first operation touches a shared key class, a
+        # clone (replace/extend) or the conversion retort
+        first2 = [op for op in ops if op in SHARED_KEY_OPS or op[0] in ("replace", "extend", "filler") or op[0].startswith("conv")]
+        shards = [(op, ops, 2) for op in first2] + [(op, ops, 1) for op in ops if op not in first2]
+    else:
+        shards = [(op, ops, 2) for op in ops]
         shards += [(op, SHARED_KEY_OPS, 3) for op in SHARED_KEY_OPS]
     run_history((), report)
     parallel.run_shards(shard, shards, report=report)
